@@ -490,3 +490,120 @@ macro_rules! observe_struct {
         }
     };
 }
+
+// ------------------------------------------------------------------------------------------------
+// body-level leaves and whole-part probes (element-level receivers)
+
+fn element_seam(site: u32, hook: &str, start: world::Pos, handed: Range, own: proc_macro2::Span) -> Result<Tok> {
+    let id = world::item_at(start);
+    let key = id.map(Key::Item);
+    let fault = key.as_ref().and_then(world::lookup);
+    world::log(Call { site, hook: hook.to_string(), item: id, handed: Some(handed), fired: fault.as_ref().map(|f| f.kind_name().to_string()) });
+    if let (Some(key), Some(fault)) = (key, fault) {
+        return Err(fire(&key, &fault, Some(own), Some(own)));
+    }
+    Ok(match id {
+        Some(id) => Tok::Item(id),
+        None => Tok::Unknown(start.0, start.1),
+    })
+}
+
+/// `FP<N>`: a `FromField` leaf; the field is identified by where its type starts.
+#[derive(Clone, Debug, PartialEq)]
+pub struct FP<const N: u32>(pub Tok);
+
+impl<const N: u32> darling::FromField for FP<N> {
+    fn from_field(field: &syn::Field) -> Result<Self> {
+        let sp = field.ty.span();
+        element_seam(N, "from_field", world::pos_of(sp.start()), world::range_of(sp), sp).map(FP)
+    }
+}
+
+impl<const N: u32> Observe for FP<N> {
+    fn observe(&self) -> Val {
+        Val::Tok(self.0.clone())
+    }
+}
+
+/// `GP<N>`: a `FromGenerics` probe (site-keyed).
+#[derive(Clone, Debug, PartialEq)]
+pub struct GP<const N: u32>(pub usize);
+
+impl<const N: u32> darling::FromGenerics for GP<N> {
+    fn from_generics(generics: &syn::Generics) -> Result<Self> {
+        site_seam(N, "from_generics")?;
+        Ok(GP(generics.params.len()))
+    }
+}
+
+impl<const N: u32> Observe for GP<N> {
+    fn observe(&self) -> Val {
+        Val::Opaque
+    }
+}
+
+/// value of an `attrs` field populated through `with = aw::<N>`
+#[derive(Clone, Debug, PartialEq)]
+pub struct AttrProbe(pub usize);
+
+pub fn aw<const N: u32>(attrs: Vec<syn::Attribute>) -> Result<AttrProbe> {
+    site_seam(N, "attrs_with")?;
+    Ok(AttrProbe(attrs.len()))
+}
+
+impl Observe for AttrProbe {
+    fn observe(&self) -> Val {
+        Val::U(self.0 as u64)
+    }
+}
+
+/// value of a `data` field populated through `with = dw::<N>`
+#[derive(Clone, Debug, PartialEq)]
+pub struct DataProbe;
+
+pub fn dw<const N: u32>(_data: &syn::Data) -> Result<DataProbe> {
+    site_seam(N, "data_with")?;
+    Ok(DataProbe)
+}
+
+impl Observe for DataProbe {
+    fn observe(&self) -> Val {
+        Val::Opaque
+    }
+}
+
+impl Observe for Vec<syn::Attribute> {
+    fn observe(&self) -> Val {
+        Val::U(self.len() as u64)
+    }
+}
+
+impl<V: Observe, F: Observe> Observe for darling::ast::Data<V, F> {
+    fn observe(&self) -> Val {
+        match self {
+            darling::ast::Data::Enum(vs) => Val::Seq(vs.iter().map(|v| v.observe()).collect()),
+            darling::ast::Data::Struct(fs) => fs.observe(),
+        }
+    }
+}
+
+impl<F: Observe> Observe for darling::ast::Fields<F> {
+    fn observe(&self) -> Val {
+        Val::Seq(self.fields.iter().map(|f| f.observe()).collect())
+    }
+}
+
+impl<T: Observe> Observe for darling::ast::GenericParam<T> {
+    fn observe(&self) -> Val {
+        match self {
+            darling::ast::GenericParam::Type(t) => t.observe(),
+            _ => Val::Opaque,
+        }
+    }
+}
+
+impl<P: Observe> Observe for darling::ast::Generics<P> {
+    fn observe(&self) -> Val {
+        Val::Seq(self.params.iter().map(|p| p.observe()).collect())
+    }
+}
